@@ -277,11 +277,16 @@ def random_execution(rng):
         until_close = framing == "close"
     extra = b"" if until_close else rng.choice([b"", b"", b"G", b"\r\n", b"HT"])
     wire = b"".join(msgs) + extra
-    ad = ParserAdapter(kind, to_syms(wire), heads)
-    evs = [{"ev": "Init", "kind": kind, "n": nmsg, "heads": heads, "wire": list(to_syms(wire))}]
-    # cut points
     npieces = rng.choice([1, 2, 3, 5, 8, 13])
     cuts = sorted(set(rng.randint(1, len(wire)) for _ in range(npieces - 1)) | {len(wire)})
+    return execute(kind, wire, nmsg, heads, until_close, cuts, rng)
+
+
+def execute(kind, wire, nmsg, heads, until_close, cuts, rng=None):
+    """feed `wire` to a real parser in the pieces ending at `cuts`, asking it to go on after each piece and starting
+    on the next message whenever one is complete; -> (events, exception or None, wire)"""
+    ad = ParserAdapter(kind, to_syms(wire), heads)
+    evs = [{"ev": "Init", "kind": kind, "n": nmsg, "heads": heads, "wire": list(to_syms(wire))}]
     pos = 0
     nth = 1
 
@@ -298,11 +303,11 @@ def random_execution(rng):
         # parse; while a message is complete and another is expected, start on the next one
         nonlocal nth
         e = do("Parse")
-        while e["obs"]["done"] and nth < nmsg:
+        while e["obs"]["done"] and "error" not in e["obs"] and nth < nmsg:
             nth += 1
             do("Again")
             e = do("Parse")
-        if rng.random() < 0.15:
+        if rng is not None and rng.random() < 0.15:
             do("ParseAgain")
 
     try:
@@ -318,12 +323,74 @@ def random_execution(rng):
     return evs, None, wire
 
 
+# ---------------------------------------------------------------- big messages: buffers beyond the line limit
+
+LINE_LIMIT = 65536      # httping.MAX_LINE_SIZE: the documented bound of a LINE; bodies and buffers may be larger
+
+
+def _filler(n, rng):
+    """n body bytes, mostly 'x', with a few CR LF pairs and colons strewn in"""
+    b = bytearray(b"x" * n)
+    for _ in range(6):
+        i = rng.randint(0, n - 2)
+        b[i:i + 2] = rng.choice([b"\r\n", b": ", b"\n\n", b"0\r"])
+    return bytes(b)
+
+
+def big_executions(rng, thorough):
+    """well-formed messages whose bodies / pipelined successors make the receive buffer exceed LINE_LIMIT while every
+    line stays short, delivered whole, in segment sized pieces and cut at structural points"""
+    def big():
+        return LINE_LIMIT + 1 + rng.randint(0, 6000)
+    small_rq = b"GET /s HTTP/1.1\r\nHost: h\r\n\r\n"
+    small_rs = b"HTTP/1.1 200 OK\r\nContent-Length: 2\r\n\r\nok"
+    b1, b2, b3, b4 = _filler(big(), rng), _filler(big(), rng), _filler(big(), rng), _filler(big(), rng)
+    c1, c2 = _filler(40000 + rng.randint(0, 999), rng), _filler(30000 + rng.randint(0, 999), rng)
+    scen = [
+        ("req", [b"POST /b HTTP/1.1\r\nHost: h\r\nContent-Length: %d\r\n\r\n" % len(b1) + b1], b"G", False),
+        ("resp", [b"HTTP/1.1 200 OK\r\nContent-Length:%d\r\n\r\n" % len(b2) + b2, small_rs], b"", False),
+        ("resp", [small_rs, b"HTTP/1.1 200 OK\r\nA: b\r\nContent-Length: %d\r\n\r\n" % len(b3) + b3], b"HT", False),
+        ("req", [small_rq, b"PUT /c HTTP/1.1\r\nTransfer-Encoding: chunked\r\n\r\n%x;e=v\r\n" % len(c1) + c1 + b"\r\n%X\r\n" % len(c2) + c2
+                 + b"\r\n0\r\nT: v\r\n\r\n", small_rq], b"", False),
+        ("resp", [b"HTTP/1.1 200 OK\r\nTransfer-Encoding: chunked\r\n\r\n%x\r\n" % len(c2) + c2 + b"\r\n%x;q\r\n" % len(c1) + c1 + b"\r\n0\r\n\r\n"],
+         b"H", False),
+        ("resp", [b"HTTP/1.0 200 OK\r\nA: b\r\n\r\n" + b4], b"", True),
+    ]
+    out = []
+    for kind, msgs, extra, until_close in scen:
+        wire = b"".join(msgs) + extra
+        n = len(wire)
+        ends = []
+        acc = 0
+        for m in msgs:
+            ends.append(acc + m.index(b"\r\n") + 2)            # after the start line
+            ends.append(acc + m.index(b"\r\n\r\n") + 4)       # after the head
+            acc += len(m)
+            ends.append(acc)                                     # after the message
+        structural = sorted(set(e for e in ends if 0 < e < n) | {n})
+        plans = [[n], structural]
+        if thorough or len(out) in (0, 8):       # quick: segment sized pieces for two of the scenarios only
+            plans.append(list(range(4096, n, 4096)) + [n])
+        if thorough:
+            plans.append(list(range(1460, n, 1460)) + [n])
+            plans.append(sorted(set(min(n, e + 1) for e in structural) | {n}))
+        for cuts in plans:
+            out.append(execute(kind, wire, len(msgs), [False] * len(msgs), until_close, cuts))
+    return out
+
+
+def _brief(wire):
+    wire = bytes(wire)
+    return repr(wire) if len(wire) <= 600 else "%r ... (%d bytes) ... %r" % (wire[:200], len(wire), wire[-80:])
+
+
 def run_c29(ctx):
     ctx.rule = ("A: every scenario of the message family of HttpParseMC.tla (requests/responses; no body, Content-Length, "
                 "chunked with extensions and trailers, until close; none/SP/2SP/HT after the colon; trailing bytes; two "
                 "messages back to back) x every split into <= 3 pieces = the complete state graph, every edge replayed on "
                 "the real Requestant/Respondent; B: seeded random longer message sequences and splits validated by TLC "
-                "against HttpParseTrace.tla; distinct = graph edges + accepted traces")
+                "against HttpParseTrace.tla, and so are a handful of messages with bodies / pipelined successors beyond the 64 KiB line "
+                "limit delivered whole, in 4096/1460 byte pieces and cut at structural points; distinct = graph edges + accepted traces")
     level = ctx.pick(1, 2)
     work = env.subdir("c29")
     table_path = work + "/table.json"
@@ -365,39 +432,69 @@ def run_c29(ctx):
     ntr = ctx.pick(400, 6000)
     trs = []
     nexc = 0
-    for i in range(ntr):
-        evs, ex, wire = random_execution(rng)
+    bigs = big_executions(random.Random(ctx.seed + 29), not ctx.quick)
+    nerr = 0
+    for i in range(ntr + len(bigs)):
+        evs, ex, wire = bigs[i - ntr] if i >= ntr else random_execution(rng)
+        bad = [e for e in evs[1:] if "error" in e.get("obs", {})]
+        if ex is None and bad:          # the parser gave up on a well-formed message
+            nerr += 1
+            if nerr <= 10:
+                ctx.diverge(Divergence("C29", "state-mismatch", bad[0]["ev"], "%s:errored" % evs[0]["kind"],
+                                       "well-formed message reported as erroneous: %s" % bad[0]["obs"]["error"][:120],
+                                       steps=_short(evs[:evs.index(bad[0]) + 1]),
+                                       extra={"wire": _brief(wire), "pieces": [e["k"] for e in evs if e["ev"] == "Deliver"][:40]}))
+            continue
         if ex is not None:
             nexc += 1
             if nexc <= 10:
                 ctx.diverge(Divergence("C29", "exception", "Parse",
                                        "%s:%s" % (evs[0]["kind"], replay.innermost_ioflo_frame(ex.__traceback__)),
-                                       "%s: %s" % (type(ex).__name__, str(ex)[:200]), steps=_short(evs), extra={"wire": repr(wire)}))
+                                       "%s: %s" % (type(ex).__name__, str(ex)[:200]), steps=_short(evs), extra={"wire": _brief(wire)}))
             continue
         trs.append(evs)
-    out = trace.validate("HttpParseTrace", TRACE_CFG, SPEC_DIR, trs, batch=100, timeout=40000)
+    # the big ones last and in small batches of their own (their states are large)
+    nbig = sum(1 for t in trs if len(t[0]["wire"]) > LINE_LIMIT)
+    out = trace.validate("HttpParseTrace", TRACE_CFG, SPEC_DIR, trs[:len(trs) - nbig], batch=100, timeout=40000)
+    if nbig:
+        out2 = trace.validate("HttpParseTrace", TRACE_CFG, SPEC_DIR, trs[len(trs) - nbig:], batch=4, timeout=40000)
+        base = len(trs) - nbig
+        out.accepted |= {base + i for i in out2.accepted}
+        out.rejected.update({base + i: v for i, v in out2.rejected.items()})
+        out.model_errors += [(base + i, e, nm, tr) for (i, e, nm, tr) in out2.model_errors]
+        out.states += out2.states
+        out.generated += out2.generated
     ctx.states += out.states
     ctx.transitions += out.generated
     if trs:
-        ctx.add_validated(len(out.accepted), {"wire": repr(to_bytes(trs[0][0]["wire"])), "events": [e["ev"] + (str(e.get("k", ""))) for e in trs[0][1:12]]})
+        ctx.add_validated(len(out.accepted), {"wire": _brief(to_bytes(trs[0][0]["wire"])), "events": [e["ev"] + (str(e.get("k", ""))) for e in trs[0][1:12]]})
     for i, pref in sorted(out.rejected.items())[:10]:
         ev = trs[i][pref] if 0 <= pref < len(trs[i]) else {}
         ctx.diverge(Divergence("C29", "rejected", ev.get("ev", "?"), "%s:trace" % trs[i][0]["kind"],
                                "recorded execution is not a behaviour of HttpParse.tla at event %d: %s" % (pref + 1, json.dumps(ev)[:300]),
-                               steps=_short(trs[i][:pref + 1]), extra={"wire": repr(to_bytes(trs[i][0]["wire"]))}))
+                               steps=_short(trs[i][:pref + 1]), extra={"wire": _brief(to_bytes(trs[i][0]["wire"]))}))
     for (i, err, name, tr) in out.model_errors[:5]:
         ctx.diverge(Divergence("C29", "rejected", name or err, "trace-invariant", "invariant %s violated on a recorded execution" % name,
                                steps=_short(trs[i])))
     ctx.exhaustive = (cov == total)
     ctx.extra.update({"scenarios": len(table), "graph_edges": total, "edges_replayed": cov, "replay_steps": n,
-                      "random_executions": ntr, "random_traces_accepted": len(out.accepted),
+                      "random_executions": ntr, "big_message_executions": len(bigs), "random_traces_accepted": len(out.accepted),
                       "distinct_nontrivial": cov + len(out.accepted), "evaluations": n + sum(len(t) for t in trs)})
 
 
 def _short(evs):
+    """events for a report: wires as text, long byte lists abbreviated"""
+    def cut(x):
+        if isinstance(x, list) and len(x) > 400 and all(isinstance(v, str) for v in x):
+            return x[:60] + ["... %d bytes ..." % len(x)] + x[-20:]
+        if isinstance(x, list):
+            return [cut(v) for v in x]
+        if isinstance(x, dict):
+            return {k: cut(v) for k, v in x.items()}
+        return x
     out = []
     for e in evs:
-        e = dict(e)
+        e = cut(dict(e))
         if "wire" in e:
             e["wire"] = "".join(chr(SYM[s]) if s in SYM else s for s in e["wire"])
         out.append(e)
